@@ -407,6 +407,11 @@ func length3(flatCoords []float64, offset int, endss [][]int, stride int) float6
 }
 
 func reverse1(flatCoords []float64, offset, end, stride int) {
+	if stride == 0 {
+		// Geometries without a layout have no coordinates to reverse, and the
+		// cursors below would not move.
+		return
+	}
 	for i, j := offset+stride, end; i <= j; i, j = i+stride, j-stride {
 		for k := range stride {
 			flatCoords[i-stride+k], flatCoords[j-stride+k] = flatCoords[j-stride+k], flatCoords[i-stride+k]
